@@ -36,7 +36,7 @@ CLAIMED = {
         note=S_NOTE + " Side verdicts are enumeration, not solver verdicts.", technique="translation validation with symbolic override values for initializer-inputs; structural side verdicts per run"),
     "C05": dict(
         category="translation_validation", design_ref="§5 C05", engine="S",
-        text="For every rule exported by rules.common (52 of 53 encoded: QLinearConv is not; every encoded rule fires on some host, dropout_inference_rule is shown vacuous from the schemas) and every host of the rule's families (instances and near-misses over operand ranks 0-3, [1]/[1,1] constants, inverted/eps/almost-1 constants, three constant forms incl. overridable graph inputs, attribute variants, zero-size dims): the single rule is applied with the real RewriteRuleSet; where it fires symonnx interprets host and result and z3 decides equality of all outputs for ALL input values (forward-error bound for recomputed float constants); validity for the declared opset is part of the schema-keyed interpretation.",
+        text="For every rule exported by rules.common (all 53 encoded; every rule fires on some host except dropout_inference_rule, which is shown vacuous from the installed schemas at every run) and every host of the rule's families (instances and near-misses over operand ranks 0-3, [1]/[1,1] constants, inverted/eps/almost-1 constants, three constant forms incl. overridable graph inputs, attribute variants, zero-size dims): the single rule is applied with the real RewriteRuleSet; where it fires symonnx interprets host and result and z3 decides equality of all outputs for ALL input values (forward-error bound for recomputed float constants); validity for the declared opset is part of the schema-keyed interpretation.",
         note=S_NOTE + " rules.fusion (sqrt/trig identities), ConvTranspose/ConvInteger/QLinearConv variants are outside the claim and listed in evidence.",
         technique="translation validation per rule and host: symbolic ONNX semantics, z3 equivalence for all inputs, onnxruntime replay"),
     "C09": dict(
